@@ -149,6 +149,7 @@ Step(e) ==
             ow2 == IF e.cleaned THEN [c \in Ids |-> IF c \in expd THEN owed[c] + 1 ELSE owed[c]] ELSE owed
             bd2 == Refetch(bound, tc, pproj, e.proj)
             bad == (IF e.cleaned THEN CleanupClauses(e.proj, tc, bd2, rec) ELSE {})
+                   \cup (IF \A x \in Pend(e.proj) : x[2] > tc THEN {} ELSE {"C03.pending-fetch-outlives-manifest"})   \* every tick drops them
                    \cup (IF e.cleaned /\ (e.a_local + e.a_loc + e.a_contacts > 0) THEN {"C05.audit-reports-expired-after-cleanup"} ELSE {})
                    \cup DerivedClauses(e.proj, bd2)
         IN Common(e, bad, r2, held, bd2, ow2, notified, slack)
